@@ -163,7 +163,7 @@ LEVELS = {
     "C01": ("Proved (all well-formed fault-free states, all arguments): exact success condition, resulting store and error class of Stat, Mkdir, Remove, Chmod, Chtimes, OpenFile (every flag combination) and Rename of a non-directory of the key-value FS model; ReadFile returns the record's bytes; WriteFullFile of a new name then ReadFile returns the data; MkdirAll success => the directory exists and nothing is lost, failure => unchanged; RemoveAll success => the name is gone; every state reachable by namespace histories is such a state (C03). "
             "Checked every run: the model agrees with the implementation on success/failure, data and whole tree after every step of generated histories, and the implementation agrees with the Go os package on the same histories.",
             "Not proved: exact specifications of WriteFullFile over an existing file, RemoveAll, Rename of directories, MkdirAll's exact success condition (model=code and code=os comparisons only). Refuted and listed as known finding: ReadFile of a directory."),
-    "C02": ("Proved over the handle model (all states, offsets, lengths): Read/ReadAt return the current bytes with the EOF rule, writes zero-fill gaps, O_APPEND lands at the end, a read-only handle never changes contents, a write-only handle never reads, rejected writes/truncates change nothing. "
+    "C02": ("Proved over the handle model (all states, offsets, lengths): Read/ReadAt return the current bytes with the EOF rule, writes zero-fill gaps, O_APPEND lands at the end, a read-only handle never changes contents, a write-only handle never reads, rejected writes/truncates change nothing; in every state ReadAt/WriteAt/Truncate/Stat/Chmod/Sync/Close never move the handle's position and Read advances it by exactly the bytes returned. "
             "Checked every run: model = implementation and implementation = os.File on multi-handle histories including a structured coherence family.",
             "Refuted (known finding): byte reads of a directory handle succeed with io.EOF. Not modelled: real os.File; it is the executable reference."),
     "C03": ("Proved: every history of namespace operations (Mkdir, MkdirAll, OpenFile+Close, WriteFullFile, Remove, RemoveAll, Rename incl. directory trees, Chmod, Chtimes, Stat, ReadDir, ReadFile), successful or failed, keeps the model's store a well-formed tree (root directory, real-name keys, every parent a directory key); no bound on length or depth; a Sub view keeps its parent well-formed and every constituent of a mount FS stays well-formed (all operations but Rename); the mount table's consistency with its directories is refuted (known finding). "
@@ -175,14 +175,14 @@ LEVELS = {
     "C05": ("Proved: in every state (store failures included) each failure of Stat, Mkdir, Remove, Chmod, Chtimes and OpenFile of the key-value model is a PathError naming exactly the caller's path, also through a generic Sub view and a mount FS (the added prefix is exactly the stripped one); on well-formed fault-free states the sentinel for each situation (invalid, exists, missing, below a file, not empty, root); Rename with an invalid name gives a LinkError with both names; in every state every failure of Rename is a LinkError (exactly the caller's names for a non-directory source, the caller's names or both extended by one relative path for a directory) and every error of a handle operation is io.EOF or a PathError. "
             "Checked every run: full error values model = implementation (mem); type, path and sentinel implementation = os on mem, Sub(mem, a/ab), a mount FS and os.FS under two Sub roots; under a store that fails one call (every index in turn, both transaction paths) every reported error is still typed and names the caller's path.",
             "Not proved: MkdirAll/RemoveAll; Rename's out-of-fuel marker of the model is excluded by the statement; cache and tar layers are exercised by C04/C10/C12 only. Two known findings (precedence; ancestor named by RemoveAll)."),
-    "C06": ("Proved over the mount model: routing is independent of the table's iteration order, selects the longest whole-element prefix, never confuses look-alike prefixes; only the routed constituent changes and the result is the direct one; AddMount succeeds at most/exactly once per point. "
-            "Checked every run: routes of all candidate paths and operation histories model = implementation; per-constituent snapshots against a flat reference.",
+    "C06": ("Proved over the mount model: routing is independent of the table's iteration order, selects the longest whole-element prefix, never confuses look-alike prefixes; only the routed constituent changes and the result is the direct one; AddMount succeeds at most/exactly once per point; a Rename across two mounts is REFUTED as an all-or-nothing operation (two witnesses = the two known findings). "
+            "Checked every run: routes of all candidate paths and operation histories model = implementation; per-constituent snapshots (incl. setuid/setgid/sticky) against a flat reference; the refutation scenario itself (one failing store call of one constituent, 48 cases) model = implementation.",
             "Cross-mount Rename's error class and the covered directory's mode in listings are not constrained (see DESIGN.md 0.6). Concurrency of AddMount is exercised, not proved. Every primitive call of a cross-mount Rename is made to fail in turn: two known findings (it is not all-or-nothing)."),
     "C07": ("Proved over the Sub model: a view addresses base joined with the name, which is the base or below it and valid; invalid names change nothing; each operation is the parent's operation at the joined name with error paths translated back. "
             "Checked every run: view vs parent on identical copies for mem, mount (inside and above a mount point), os and an Open-only FS; model = implementation.",
             "Refuted (known findings): Rename through the generic view is ErrNotImplemented; Sub(mountFS, dir) above a mount point hides the mount."),
     "C08": ("Proved over the helper model: single-dispatch helpers equal the full-interface helper or fail with ErrNotImplemented changing nothing; with all interfaces the helper is the native method; both MkdirAll paths refuse invalid names identically; the MkdirAll fallback returns nil only if every primitive succeeded or met an existing directory, and returns the first other primitive error; RemoveAll swallows only ErrNotExist. "
-            "Checked every run: 2500 (helper x 36 capability masks x state x injected primitive failure) cases against the full-capability FS; model = implementation on 450.",
+            "Checked every run: 2500 (helper x 70 capability masks incl. MountFS x state incl. symbolic links on os x injected primitive failure) cases against the full-capability FS; model = implementation on 450.",
             "Equality of fallback and optimised path for Stat, MkdirAll, RemoveAll, Chmod is checked, not proved."),
     "C09": ("Proved for every separator/volume convention: every chain of Sub calls yields an empty or valid root; the OS path is volume + separator + (root joined with name); it stays inside the root; invalid names and names containing a non-'/' separator are refused; FromOSPath inverts ToOSPath, returns only valid FS paths, refuses other volumes, paths outside the root and look-alike prefixes. "
             "Checked every run: 5k ToOSPath/FromOSPath/Sub cases model = implementation through the build-tagged shims for Unix and Windows conventions.",
@@ -199,7 +199,7 @@ LEVELS = {
     "C13": ("Proved over the pubsub/Open protocol model: a wait is released by emit or cancel and by nothing else and stays released; a successful Open returns a complete entry; failures close; no opener stays stuck; reader completion precedes cancellation handling. "
             "Checked every run: scripted pubsub schedules with real goroutines; streamed archives with stalls, truncation, read errors, cancellation and failing destinations with 1..8 openers.",
             "Go's scheduler and context package are trusted."),
-    "C14": ("Proved: when the single failing store call fires inside Mkdir, Remove, Chmod, Chtimes or the Rename of a regular file the operation returns an error (and every record is unchanged for the first four); in every state a reported success of Mkdir/Remove/Chmod implies the record is (not) in the store; a rejected Set is reported; a failed Get is never mistaken for not-exist; the fault fires at most once; the model has no panic outcome. "
+    "C14": ("Proved: when the single failing store call fires inside Mkdir, Remove, Chmod, Chtimes or the Rename of a regular file the operation returns an error (and every record is unchanged for the first four); in every state a reported success of Mkdir/Remove/Chmod, of the Rename of a non-directory, of a non-empty Write/WriteAt and of OpenFile implies the record is (not) in the store; a rejected Set is reported; a failed Get is never mistaken for not-exist; the fault fires at most once; the model has no panic outcome. "
             "Checked every run: every history x every fault index, plain and transaction store: model = implementation; success despite a failed call only if result and store equal the failure-free ones; view = store afterwards.",
             "Not proved for OpenFile, WriteFile, Rename of directories, MkdirAll, RemoveAll and handle operations (the code ignores failures of look-ups it did not need there)."),
     "C15": ("Proved over the interleaving model of Mkdir/Remove/Stat: linearizability is REFUTED (two witnesses, matching the known findings); unrelated programs commute; single-transaction operations are linearizable; transactions are exclusive and released. "
